@@ -1020,8 +1020,8 @@ FAMS = {
                   blocks=[('l1', 1.0, 'D', 'nat'), ('l1', 0.5, 'I', 'nat')], xv=XV,
                   solvers=PD4),
     # the same with two operators of EQUAL range (rn3 -> rn3 twice) and different g_i
-    'fused_eq': dict(X=['rn3', 'rn3w2', 'rn3wa'], f=('l2sq', 0.5), absorb='f_shift',
-                     blocks=[('l1', 1.0, 'M', 'nat'), ('l2', 2.0, 'I', 'pat')], xv=XV,
+    'fused_eq': dict(X=['rn3', 'rn3w2'], f=('l2sq', 1.0), absorb='f_shift',
+                     blocks=[('l1', 1.0, 'Q', 'nat'), ('l1', 0.5, 'I', 'pat')], xv=XV,
                      solvers=PD4),
     # ridge regression: 1/2||x-a||^2 + ||Mx-b||^2: f AND g^* strongly convex, both proximals
     # depend on their step (accelerated pdhg on either side)
